@@ -245,16 +245,25 @@ def h08c(e):
 
 def h08d(sg, occ):
     """public API call histories on one analyzer: flag and parameters after get_material_id() / return_parameters=False"""
+    prev_occ = other_occupation(sg, occ)
+
     def fn(e):
-        hist = e.pick(["fresh", "after-id", "after-false", "after-true"])
+        hist = e.pick(["fresh", "after-id", "after-false", "after-true", "after-other-system"])
         ds = S.make_dataset(e, sg, occ)
-        ses = S.Session([ds])
+        other = hist == "after-other-system"
+        # one analyzer object that has analysed (flag, parameters) another crystal before: one whose flag is the opposite
+        # where the group has both kinds of position
+        ses = S.Session([S.make_dataset(e, sg, prev_occ, tag="P"), ds] if other else [ds])
         NPProxy.hooks["lexsort"] = lambda keys: np.arange(len(np.asarray(keys[0])))
         exc = None
         try:
             with ses.active(), patched(SA.SymmetryAnalyzer, _search_periodic_positions=search_contract(False)):
                 try:
                     an = ses.start()
+                    if other:
+                        an.get_has_free_wyckoff_parameters()
+                        an.get_wyckoff_sets_conventional(return_parameters=True)
+                        an = ses.switch(1)
                     if hist == "after-id":
                         an.get_material_id()
                     elif hist == "after-false":
@@ -288,13 +297,26 @@ def h08d(sg, occ):
     return fn
 
 
+def other_occupation(sg, occ):
+    """a single-orbit crystal of the same group whose has-free-parameters flag is the opposite of `occ`'s, if there is one"""
+    has = any(S.nvars(sg, l) for l, _ in occ)
+    cands = [l for l in S.letters_of(sg) if bool(S.nvars(sg, l)) != has] or [S.letters_of(sg)[-1]]
+    return [(cands[0], 8)]
+
+
 def conc_history(sg, occ, vals, hist):
     ds = S.concrete_dataset(sg, occ, vals)
-    ses = S.RealSession([ds])
+    other = hist == "after-other-system"
+    prev_occ = other_occupation(sg, occ)
+    ses = S.RealSession(([S.concrete_dataset(sg, prev_occ, [[0.137 if v in S.WYCKOFF_SETS[sg][prev_occ[0][0]]["variables"] else 0.0 for v in "xyz"]])] if other else []) + [ds])
     msgs = []
     with ses.active():
         try:
             an = ses.start(symmetry_tol=1e-4)
+            if other:
+                an.get_has_free_wyckoff_parameters()
+                an.get_wyckoff_sets_conventional(return_parameters=True)
+                an = ses.switch(1)
             if hist == "after-id":
                 an.get_material_id()
             elif hist == "after-false":
@@ -507,7 +529,7 @@ def main(tier, seed, only=None):
     rep.bounds = {"rows": sum(len(rows_with_variables(g)) for g in groups), "first atom": "first and last member of the orbit (quick); every member for orbits <= 24, four otherwise (thorough)",
                   "search semantics": "generic (a non-constant linear form is never integral) for all rows; thorough adds z3-decided congruence for orbits <= 8",
                   "H08a": "real _search_periodic_positions, <= 2 candidates that differ from the target along one lattice direction at a time (symbolic fractional coordinate in [-2,2], the others in other periodic images), symbolic accuracy, rational cells with rational vector norms",
-                  "H08d": "public API with four call histories on one or two occupations per group"}
+                  "H08d": "public API with five call histories (fresh, after get_material_id, after the sets without / with parameters, after another crystal with the opposite flag was analysed on the same analyzer object) on one or two occupations per group"}
     rep.stubs = ["orbit of the row's representative under the Hall-database group as the atoms (independent of the numeric matrices)", "rationalised copy of WYCKOFF_SETS",
                  "_search_periodic_positions replaced by its exact-arithmetic contract inside H08b/H08d (the real function is checked in H08a)", "lexsort = identity (the contract is order-insensitive)",
                  "get_wrapped_positions = x mod 1 inside H08b (the real function is checked in H08c)", "SpglibContract (H08d)"]
